@@ -210,15 +210,27 @@ func (s *stepper) build(args map[string]any, gate string) (*genBatch, arrow.Reco
 		ex = 0 // the estimate is never consulted
 	}
 	var lastErr string
-	for iter := 0; iter < 14; iter++ {
+	// bracket on the row count: loR rows are known to be too few, hiR too many
+	loR, hiR := 1, 1<<30
+	grown := false
+	for iter := 0; iter < 30; iter++ {
 		g := newGen(sc, rows, md, wantAbove, seed, vgirpc.MetaShmOffset, vgirpc.MetaShmLength)
 		b0 := g.batch(0)
 		l0 := streamLen(b0, g.stripped)
 		buf := int(vgirpc.VerifBatchBufferSize(b0))
 		est := vgirpc.VerifEstimateSerializedSize(b0)
 		b0.Release()
-		adjust := func(want int) bool { // move rows towards `want` top-level buffer bytes
+		// move rows towards `want` top-level buffer bytes, staying inside the bracket
+		adjust := func(want int, tooMany bool) bool {
 			if rw != "many" {
+				return false
+			}
+			if tooMany {
+				hiR = min(hiR, rows)
+			} else {
+				loR = max(loR, rows)
+			}
+			if hiR-loR <= 1 {
 				return false
 			}
 			per := float64(buf) / float64(max(rows, 1))
@@ -226,11 +238,11 @@ func (s *stepper) build(args map[string]any, gate string) (*genBatch, arrow.Reco
 				per = 1
 			}
 			nr := rows + int(float64(want-buf)/per)
-			if nr == rows {
-				if want > buf {
-					nr++
+			if nr >= hiR || nr <= loR {
+				if hiR < 1<<30 {
+					nr = (loR + hiR) / 2
 				} else {
-					nr--
+					nr = max(rows*2, loR+1)
 				}
 			}
 			if nr < 2 {
@@ -242,35 +254,40 @@ func (s *stepper) build(args map[string]any, gate string) (*genBatch, arrow.Reco
 			rows = nr
 			return true
 		}
+		aimEx1 := target - 4096 + (4096-(l0-buf))/2 + 64
 		retry := false
 		switch {
 		case l0 > target-8:
 			lastErr = fmt.Sprintf("stream %d > target %d with %d rows", l0, target, rows)
-			if rw == "many" && rows > 2 {
-				rows = max(2, rows*6/10)
-				retry = true
+			if ex == 1 {
+				retry = adjust(aimEx1, true)
+			} else {
+				retry = adjust(buf*6/10, true)
 			}
 		case ex == 0 && !wantBelow && est > target:
 			lastErr = fmt.Sprintf("estimate %d > target %d", est, target)
-			retry = adjust(target - 4096 - 512)
-		case ex == 1 && (est <= target || est > target+s.unit):
-			lastErr = fmt.Sprintf("estimate %d not in (%d, %d]", est, target, target+s.unit)
-			retry = adjust(target - 4096 + (4096-(l0-buf))/2 + 64)
+			retry = adjust(target-4096-512, true)
+		case ex == 1 && est > target+s.unit:
+			lastErr = fmt.Sprintf("estimate %d > %d", est, target+s.unit)
+			retry = adjust(aimEx1, true)
+		case ex == 1 && est <= target:
+			lastErr = fmt.Sprintf("estimate %d <= target %d", est, target)
+			retry = adjust(aimEx1, false)
 		case wantAbove && buf < gateBytes:
 			lastErr = fmt.Sprintf("buffers %d below the gate", buf)
-			retry = adjust(gateBytes + 64 + s.rng.Intn(512))
+			retry = adjust(gateBytes+64+s.rng.Intn(512), false)
 		case wantBelow && buf >= gateBytes:
 			lastErr = fmt.Sprintf("buffers %d above the gate", buf)
-			retry = adjust(gateBytes / 2)
-		case rw == "many" && ex == 0 && !wantBelow && iter == 0 && s.rng.Intn(3) != 0:
-			// first fitting draw is tiny: grow it to a random share of the room
-			room := target - 4096 - 512 - buf
-			if wantAbove {
-				retry = adjust(max(gateBytes+64, buf+s.rng.Intn(max(room, 1))))
-			} else {
-				retry = adjust(buf + s.rng.Intn(max(room, 1)))
-			}
+			retry = adjust(gateBytes/2, true)
+		case rw == "many" && ex == 0 && !wantBelow && !grown && s.rng.Intn(3) != 0:
+			// the first fitting draw is tiny: grow it to a random share of the room
+			grown = true
 			lastErr = "grow"
+			if room := target - 4096 - 512 - buf; room > 0 && adjust(buf+s.rng.Intn(room), false) {
+				retry = true
+				break
+			}
+			fallthrough
 		default:
 			pad := target - l0
 			b := g.batch(pad)
